@@ -133,6 +133,29 @@ let verdict case impl =
   match case, impl with
   (* a panic of the implementation inside the quantifier is a property failure, not a mismatch *)
   | (("S" | "I" | "D" | "P") :: _), ["panic"] -> "viol implementation-panicked"
+  (* ShardAwarePortRange::new refused an allowed range (1024 <= lo <= hi, guaranteed by the runner's case
+     filter): nothing is produced.  Property: "nothing is produced only when no such port exists". *)
+  | [("I" | "D"); n; s; lo; hi], ["rejected"] when small 65535 n && n <> "0" && small 0xffffffff s && small 65535 lo && small 65535 hi ->
+    let n = n_of_hex n and s = n_of_hex s and lo = n_of_hex lo and hi = n_of_hex hi in
+    (match spec_ports n s lo hi with
+     | [] -> "diff allowed-range-rejected model=" ^ string_of_nlist (ports_for_shard n s lo hi)
+     | l -> "viol allowed-range-rejected spec=" ^ string_of_nlist l)
+  (* ShardAwarePortRange::new on lo..=hi (kind N).  Model: extracted port_range_new (C11_range_new_iff: accepts iff
+     1024 <= lo <= hi, range unchanged).  The documented contract IS the property here: an implementation that refuses
+     a range with 1024 <= lo <= hi (nothing can be produced from it although ports exist: every non-empty range has a
+     port for some shard, C11_range_new_produces) or accepts an empty / reserved one is a viol; the contract is
+     evaluated in OCaml on the hex fields, separately from the model. *)
+  | ["N"; lo; hi], [obs] when not (small 65535 lo && small 65535 hi && (obs = "ok" || obs = "rejected" || obs = "panic")) -> "error unknown-case"
+  | ["N"; lo; hi], [obs] ->
+    let m = port_range_new (n_of_hex lo) (n_of_hex hi) in
+    let ms = match m with Some (a, b) -> "ok(" ^ hex_of_n a ^ ".." ^ hex_of_n b ^ ")" | None -> "rejected" in
+    let lo_i = int_of_string ("0x" ^ lo) and hi_i = int_of_string ("0x" ^ hi) in
+    let allowed = 1024 <= lo_i && lo_i <= hi_i in
+    if obs = "panic" then "viol implementation-panicked model=" ^ ms
+    else if (obs = "ok") = (m <> None) then "ok"
+    else if (obs = "ok") <> allowed then
+      (if allowed then "viol allowed-range-rejected model=" ^ ms else "viol " ^ (if hi_i < lo_i then "empty" else "reserved") ^ "-range-accepted model=" ^ ms)
+    else "diff model=" ^ ms
   | ["S"; n; msb; t], [obs] when not (small 65535 n && n <> "0" && small 255 msb && signed_hex t && small 0xffffffff obs) -> "error unknown-case"
   | ["I"; n; s; lo; hi], [obs] when not (small 65535 n && n <> "0" && small 0xffffffff s && small 65535 lo && small 65535 hi && small_list 0xffffffff 70000 obs) -> "error unknown-case"
   | ["D"; n; s; lo; hi], [obs] when not (small 65535 n && n <> "0" && small 0xffffffff s && small 65535 lo && small 65535 hi && (obs = "none" || small 0xffffffff obs)) -> "error unknown-case"
